@@ -83,6 +83,66 @@ func (w *World) checkNamespaceInheritance(P string, sf *storeFacts, pullers []*s
 					}
 				}
 			}
+			// inline form: an inner loop compares prefixes and skips the parent's entry on a match: from the edge on
+			// which two Prefix() values are equal the constructor call cannot be reached within the same iteration of
+			// the loop over the parent's list
+			if !guarded {
+				var outerHead *ssa.BasicBlock
+				sliceContains(c.Call.Args[ci.NodeParam], func(v ssa.Value) bool {
+					if ia, ok := v.(*ssa.IndexAddr); ok {
+						if ph, ok := ia.Index.(*ssa.Phi); ok {
+							outerHead = ph.Block()
+						} else if bo, ok := ia.Index.(*ssa.BinOp); ok {
+							if ph, ok := bo.X.(*ssa.Phi); ok {
+								outerHead = ph.Block()
+							}
+						}
+						return outerHead != nil
+					}
+					return false
+				})
+				if outerHead != nil {
+					allInstrs(fn, func(in2 ssa.Instruction) {
+						iff, ok := in2.(*ssa.If)
+						if !ok {
+							return
+						}
+						bo, ok := iff.Cond.(*ssa.BinOp)
+						if !ok || (bo.Op != token.EQL && bo.Op != token.NEQ) {
+							return
+						}
+						_, okx := isMethodCall(bo.X, "Prefix")
+						_, oky := isMethodCall(bo.Y, "Prefix")
+						if !okx || !oky {
+							return
+						}
+						eq := iff.Block().Succs[0]
+						if bo.Op == token.NEQ {
+							eq = iff.Block().Succs[1]
+						}
+						seen := map[*ssa.BasicBlock]bool{outerHead: true}
+						reach := false
+						var walk func(b *ssa.BasicBlock)
+						walk = func(b *ssa.BasicBlock) {
+							if seen[b] {
+								return
+							}
+							seen[b] = true
+							if b == c.Block() {
+								reach = true
+								return
+							}
+							for _, s2 := range b.Succs {
+								walk(s2)
+							}
+						}
+						walk(eq)
+						if !reach && iff.Block() != c.Block() && outerHead.Dominates(iff.Block()) {
+							guarded = true
+						}
+					})
+				}
+			}
 			// appended to E.namespaces
 			appended := false
 			for _, s := range resultSinks(c) {
@@ -238,6 +298,33 @@ func (w *World) checkNamespaceInheritance(P string, sf *storeFacts, pullers []*s
 					if e, ok := phiVal[x]; ok {
 						return eval(e, depth+1)
 					}
+				case *ssa.BinOp:
+					// the cursor a helper handed back compared with the current one: equal iff the helper returns
+					// its cursor parameter for this kind of event
+					if (x.Op == token.EQL || x.Op == token.NEQ) && (x.X == ssa.Value(cur) || x.Y == ssa.Value(cur)) {
+						other := x.X
+						if other == ssa.Value(cur) {
+							other = x.Y
+						}
+						if ex, ok := other.(*ssa.Extract); ok {
+							if call, ok := ex.Tuple.(*ssa.Call); ok {
+								if sc := staticCallee(call); sc != nil && fnPkgKey(sc) == "store" && len(sc.Blocks) > 0 {
+									var raw ssa.Value
+									if _, ok := evalCalleeRaw(call, sc, ex.Index, eval, nodeV, kind, depth+1, &raw); ok && raw != nil {
+										same := raw == ssa.Value(cur)
+										return same == (x.Op == token.EQL), true
+									}
+								}
+							}
+						}
+					}
+				case *ssa.Extract:
+					// a flag handed back by a helper of the package: evaluate the helper for this kind of event
+					if call, ok := x.Tuple.(*ssa.Call); ok {
+						if sc := staticCallee(call); sc != nil && fnPkgKey(sc) == "store" && len(sc.Blocks) > 0 {
+							return evalCallee(call, sc, x.Index, eval, nodeV, kind, depth+1)
+						}
+					}
 				}
 				return false, false
 			}
@@ -378,6 +465,127 @@ func (w *World) checkNamespaceInheritance(P string, sf *storeFacts, pullers []*s
 		}
 	}
 	w.floor(P, "R10.9", 11)
+	w.rebuiltListOrder(P, sf)
+}
+
+// rebuiltListOrder (R10.10): the Cursor contract wants Namespaces() in ascending position order. A function that
+// rebuilds an element's namespaces list from the entries it already has (which carry the positions they were
+// created with, ascending in list order) and freshly numbered nodes keeps that order only if it takes the old
+// entries over in their own order, each as the element of one ascending loop over the old list, and appends the
+// freshly numbered nodes after them.
+func (w *World) rebuiltListOrder(P string, sf *storeFacts) {
+	docRule(P, "R10.10", "F", "a function of package store that rebuilds an element's namespaces list (stores a freshly made slice into it) takes existing entries over only as the loop element of one ascending loop over the old list itself, and that loop precedes the construction of the freshly numbered nodes: the rebuilt list stays in ascending Pos() order.")
+	n := 0
+	w.forAllFuncs("store", func(fn *ssa.Function) {
+		if len(fn.Params) == 0 {
+			return
+		}
+		E := ssa.Value(fn.Params[0])
+		if pt, ok := E.Type().(*types.Pointer); !ok || !types.Identical(pt.Elem(), sf.T) {
+			return
+		}
+		fresh := false
+		allInstrs(fn, func(in ssa.Instruction) {
+			if st, ok := in.(*ssa.Store); ok {
+				if fa, ok := st.Addr.(*ssa.FieldAddr); ok && fa.X == E && sf.roleOf(fa.Field) == "namespaces" {
+					if _, isMake := st.Val.(*ssa.MakeSlice); isMake {
+						fresh = true
+					}
+				}
+			}
+		})
+		if !fresh {
+			return
+		}
+		isD := func(v ssa.Value) bool {
+			ld, ok := v.(*ssa.UnOp)
+			if !ok || ld.Op != token.MUL {
+				return false
+			}
+			fa, ok := ld.X.(*ssa.FieldAddr)
+			return ok && fa.X == E && sf.roleOf(fa.Field) == "namespaces"
+		}
+		var keepHead *ssa.BasicBlock
+		var ctorBlocks []*ssa.BasicBlock
+		bad := ""
+		allInstrs(fn, func(in ssa.Instruction) {
+			c, ok := in.(*ssa.Call)
+			if !ok {
+				return
+			}
+			b, ok := c.Call.Value.(*ssa.Builtin)
+			if !ok || b.Name() != "append" || len(c.Call.Args) != 2 {
+				return
+			}
+			toNS := false
+			for _, rr := range referrers(c) {
+				if st, ok := rr.(*ssa.Store); ok {
+					if fa, ok := st.Addr.(*ssa.FieldAddr); ok && fa.X == E && sf.roleOf(fa.Field) == "namespaces" {
+						toNS = true
+					}
+				}
+			}
+			if !toNS {
+				return
+			}
+			// the single appended value
+			var elem ssa.Value
+			if sl, ok := c.Call.Args[1].(*ssa.Slice); ok {
+				if al, ok := sl.X.(*ssa.Alloc); ok {
+					for _, st := range storesInto(al) {
+						elem = st.Val
+					}
+				}
+			}
+			if elem == nil {
+				bad = "several values appended at once at " + w.pos(c.Pos())
+				return
+			}
+			v := stripConv(elem)
+			if mi, ok := v.(*ssa.MakeInterface); ok {
+				v = stripConv(mi.X)
+			}
+			if call, ok := v.(*ssa.Call); ok {
+				if _, isCtor := sf.Ctors[staticCallee(call)]; isCtor {
+					ctorBlocks = append(ctorBlocks, c.Block())
+					return
+				}
+			}
+			// an existing entry: must be D[i] with i the counter of an ascending loop
+			ld, ok := v.(*ssa.UnOp)
+			okKeep := false
+			if ok {
+				if ia, ok := ld.X.(*ssa.IndexAddr); ok && isD(ia.X) && (ascendingCounter(ia.Index) || isCounterPhi2(ia.Index)) {
+					okKeep = true
+					if ph, ok := ia.Index.(*ssa.Phi); ok {
+						keepHead = ph.Block()
+					} else if bo, ok := ia.Index.(*ssa.BinOp); ok {
+						if ph, ok := bo.X.(*ssa.Phi); ok {
+							keepHead = ph.Block()
+						}
+					}
+				}
+			}
+			if !okKeep {
+				bad = "an existing entry is appended at " + w.pos(c.Pos()) + " that is not the element of an ascending loop over the old list (" + describe(v) + ")"
+			}
+		})
+		n++
+		order := true
+		if keepHead != nil {
+			for _, cb := range ctorBlocks {
+				if !keepHead.Dominates(cb) {
+					order = false
+				}
+			}
+		}
+		w.check(P, "R10.10", "namespaces list rebuilt by "+fn.Name(), fn.Pos(), bad == "" && order, orElse(bad, fmt.Sprintf("existing entries are taken over in their own order; freshly numbered nodes are appended after them: %v", order)))
+	})
+	if n == 0 {
+		// the store inherits at creation time and never rebuilds: nothing to decide
+		w.check(P, "R10.10", "namespaces list rebuilt", 0, true, "no function rebuilds a namespaces list")
+	}
+	w.floor(P, "R10.10", 1)
 }
 
 // comparesPrefix: fn returns true under an equality of Prefix() values (a membership test by prefix).
@@ -402,4 +610,118 @@ func comparesPrefix(fn *ssa.Function) bool {
 		}
 	}
 	return found
+}
+
+// evalCallee evaluates the boolean result idx of a call of a small helper: branches on the kind of the node parameter
+// (bound to the pulled node at the call) and on boolean parameters (evaluated in the caller) are decided, anything
+// else gives up.
+func evalCallee(call *ssa.Call, fn *ssa.Function, idx int, callerEval func(ssa.Value, int) (bool, bool), nodeV ssa.Value, kind string, depth int) (bool, bool) {
+	return evalCalleeRaw(call, fn, idx, callerEval, nodeV, kind, depth, nil)
+}
+
+// evalCalleeRaw: with rawOut set, the value returned at position idx (a parameter replaced by the argument of the
+// call) is stored there instead of being evaluated as a boolean.
+func evalCalleeRaw(call *ssa.Call, fn *ssa.Function, idx int, callerEval func(ssa.Value, int) (bool, bool), nodeV ssa.Value, kind string, depth int, rawOut *ssa.Value) (bool, bool) {
+	if depth > 12 {
+		return false, false
+	}
+	arg := map[*ssa.Parameter]ssa.Value{}
+	for i, p := range fn.Params {
+		if i < len(call.Call.Args) {
+			arg[p] = call.Call.Args[i]
+		}
+	}
+	phiVal := map[*ssa.Phi]ssa.Value{}
+	var eval func(v ssa.Value, d int) (bool, bool)
+	eval = func(v ssa.Value, d int) (bool, bool) {
+		if d > 20 {
+			return false, false
+		}
+		switch x := v.(type) {
+		case *ssa.Const:
+			if x.Value != nil && x.Value.Kind() == constant.Bool {
+				return constant.BoolVal(x.Value), true
+			}
+		case *ssa.Parameter:
+			if a, ok := arg[x]; ok {
+				return callerEval(a, depth+1)
+			}
+		case *ssa.UnOp:
+			if x.Op == token.NOT {
+				val, ok := eval(x.X, d+1)
+				return !val, ok
+			}
+		case *ssa.Phi:
+			if e, ok := phiVal[x]; ok {
+				return eval(e, d+1)
+			}
+		case *ssa.Extract:
+			if ta, ok := x.Tuple.(*ssa.TypeAssert); ok && x.Index == 1 {
+				if p, ok := ta.X.(*ssa.Parameter); ok && arg[p] == nodeV {
+					if n, _ := nodeIface(ta.AssertedType); n != nil {
+						switch n.Obj().Name() {
+						case "Namespace":
+							return kind == "namespace", true
+						case "Attribute":
+							return kind == "attribute", true
+						case "Element", "NamedNode":
+							return kind == "element" || kind == "attribute", true
+						default:
+							return false, true
+						}
+					}
+				}
+			}
+		}
+		return false, false
+	}
+	b := fn.Blocks[0]
+	var prev *ssa.BasicBlock
+	for steps := 0; steps < 200; steps++ {
+		if prev != nil {
+			for _, in := range b.Instrs {
+				if ph, ok := in.(*ssa.Phi); ok {
+					for i, p := range b.Preds {
+						if p == prev {
+							phiVal[ph] = ph.Edges[i]
+						}
+					}
+				}
+			}
+		}
+		switch x := b.Instrs[len(b.Instrs)-1].(type) {
+		case *ssa.Return:
+			if idx >= len(x.Results) {
+				return false, false
+			}
+			if rawOut != nil {
+				rv := x.Results[idx]
+				if p, isP := rv.(*ssa.Parameter); isP {
+					if a, ok := arg[p]; ok {
+						rv = a
+					}
+				}
+				*rawOut = rv
+				return false, true
+			}
+			return eval(x.Results[idx], 0)
+		case *ssa.If:
+			val, ok := eval(x.Cond, 0)
+			if !ok {
+				return false, false
+			}
+			prev = b
+			if val {
+				b = b.Succs[0]
+			} else {
+				b = b.Succs[1]
+			}
+		case *ssa.Jump:
+			prev = b
+			b = b.Succs[0]
+		default:
+			return false, false
+		}
+	}
+	return false, false
 }
